@@ -99,6 +99,60 @@ def direction_b(spec, pad):
                         '%s.decode() of a conformant encoding differs at %s' % (name, d), case)
 
 
+def check_object(obj, spec, case, tag):
+    """Direction-a oracle on an existing library object that is supposed to carry `spec`."""
+    name = type(obj).__name__
+    try:
+        raw = obj.encode()
+    except Exception as exc:
+        raise Violation('C02:%s:encode:%s:%s' % (tag, name, lib_frame(exc)), '%s.encode() raised %r' % (name, exc), case)
+    try:
+        parsed = refpdu.parse_pdu(raw)
+    except refpdu.RefError as exc:
+        raise Violation('C02:%s:layout:%s' % (tag, name), '%s.encode() after modification is not a well-formed PDU: %s'
+                        % (name, exc), case)
+    d = g.first_diff(g.norm_ae(spec), g.norm_ae(refpdu.strip_n(parsed)))
+    if d:
+        raise Violation('C02:%s:fields:%s:%s' % (tag, name, _gen(d)), '%s: strict reading differs from the object at %s'
+                        % (name, d), case)
+    check_lengths(obj, parsed, case)
+
+
+def direction_mutated(spec1, spec2, decoded_origin):
+    """A PDU object that was already encoded (or that came out of decode()) is modified through its public
+    attributes and encoded again: the bytes must describe the object as it is NOW."""
+    import copy
+    case = {'kind': 'm', 'spec': spec1, 'spec2': spec2, 'decoded_origin': decoded_origin}
+    obj = g.build(spec1)
+    raw1 = obj.encode()
+    obj.total_length()
+    if decoded_origin:
+        obj = g.pdu_class(spec1['t']).decode(raw1)
+    expected = copy.deepcopy(spec1)
+    if spec1['t'] in (1, 2):
+        ui2 = [it for it in spec2['items'] if it['t'] == 0x50]
+        done = False
+        if ui2:
+            for item, espec in zip(obj.variable_items, expected['items']):
+                if espec['t'] == 0x50:
+                    item.user_data = [g.build_sub(x) for x in ui2[0]['subs']]
+                    espec['subs'] = copy.deepcopy(ui2[0]['subs'])
+                    done = True
+        if not done:
+            obj.variable_items = [g.build_item(i) for i in spec2['items']]
+            expected['items'] = copy.deepcopy(spec2['items'])
+        obj.called_ae_title = spec2['called']
+        expected['called'] = spec2['called']
+    elif spec1['t'] == 4:
+        from pynetdicom2 import pdu
+        obj.data_value_items = [pdu.PresentationDataValueItem(v['id'], v['data']) for v in spec2['pdvs']]
+        expected['pdvs'] = copy.deepcopy(spec2['pdvs'])
+    else:
+        return False
+    check_object(obj, expected, case, 'mut')
+    return True
+
+
 def nontrivial(spec):
     t = spec['t']
     if t in (1, 2):
@@ -138,6 +192,19 @@ def run_b(ctx, n):
     hyp_search(ctx, strat, fn, n, name='C02-b')
 
 
+def run_mutated(ctx, n):
+    same_kind = st.sampled_from([1, 2, 4]).flatmap(
+        lambda t: st.tuples(g.assoc_pdu(t) if t != 4 else g.pdata_pdu(False), g.assoc_pdu(t) if t != 4 else g.pdata_pdu(False),
+                            st.booleans()))
+
+    def fn(value):
+        s1, s2, dec = value
+        ctx.case(('m', s1, s2, dec), True, labels=['dir=modified-after-%s' % ('decode' if dec else 'encode'), 'pdu=%d' % s1['t']],
+                 sample={'dir': 'modified', 'decoded_origin': dec, 'spec': s1})
+        direction_mutated(s1, s2, dec)
+    hyp_search(ctx, same_kind, fn, n, name='C02-mutated')
+
+
 def run_pairs(ctx):
     """Every ordered pair of sub-item kinds (incl. unknown 57H) reference-encoded, both directions."""
     from .c01 import wrap_subs
@@ -158,6 +225,7 @@ def shard(ctx, job):
     warnings.simplefilter('ignore')
     run_a(ctx, job['n'])
     run_b(ctx, job['n'])
+    run_mutated(ctx, job['n'] // 4)
 
 
 def run(ctx):
@@ -171,23 +239,27 @@ def run(ctx):
                 'conformant specs (sub-items in any order, unknown sub-item types 57H/5AH-FFH, 1-4 '
                 'transfer syntaxes, 1-5 PDVs, space or NUL padded AE titles) encoded by the '
                 'reference encoder and decoded by the library; plus all 81 sub-item pairs in both '
-                'directions; non-trivial = >=2 nested items, an unknown sub-item or >=2 PDVs; '
+                'directions; plus objects modified through their public attributes after a first encode() or after '
+                'decode() and encoded again; non-trivial = >=2 nested items, an unknown sub-item or >=2 PDVs; '
                 'distinct by (direction, spec)')
     ctx.assumptions = ['reference codec transcribed from PS3.8 9.3 and PS3.7 Annex D (vf/refpdu.py)',
                        'AE titles compared modulo leading/trailing spaces and NULs',
                        'binary-valued user identity fields are generated as UTF-8 text only']
     if ctx.thorough:
         run_pairs(ctx)
-        parallel(ctx, shard, [{'n': 3000} for _ in range(16)])
+        parallel(ctx, shard, [{'n': 8000} for _ in range(16)])
     else:
         run_pairs(ctx)
         run_a(ctx, 1500)
         run_b(ctx, 1500)
+        run_mutated(ctx, 400)
 
 
 def replay(case):
     warnings.simplefilter('ignore')
-    if case['kind'] == 'a':
+    if case['kind'] == 'm':
+        direction_mutated(case['spec'], case['spec2'], case['decoded_origin'])
+    elif case['kind'] == 'a':
         direction_a(case['spec'])
     else:
         direction_b(case['spec'], case.get('pad', b' '))
